@@ -2,6 +2,7 @@ CONSTANTS
   MaxLen = 4
   MaxStream = 3
   Mode = "unquote"
+  NMappers = 3
 SPECIFICATION Spec
 INVARIANTS Inversion ExactlyOnce
 CHECK_DEADLOCK FALSE
